@@ -1,5 +1,6 @@
 import PvModel.Loop
 import PvModel.Pool
+import PvModel.Run
 /-!
 # Py — the Python primitives that `tools/py2lean.py` translates source text *into*
 
@@ -125,4 +126,27 @@ def intOfNum (x : Num) : Except Err Int :=
   | .fin q => .ok (Num.truncRat q)
   | .nan => .error .valueError
   | _ => .error .overflowError
+end Py
+
+/-! ## `float | list[float]` values (the objective's result) -/
+
+def ObjVal.isList : ObjVal → Bool
+  | .multi _ => true
+  | .single _ => false
+
+/-- `np.atleast_1d(cost)` -/
+def ObjVal.toList : ObjVal → List Num
+  | .multi xs => xs
+  | .single x => [x]
+
+namespace Py
+/-- pydantic's validation of `Agent.cost: float`: a list is a `ValidationError` -/
+def asFloat : ObjVal → Except Err Num
+  | .single x => .ok x
+  | .multi _ => .error .validationError
+
+/-- a `float | list` value used where arithmetic / comparison with a number happens (`value >= 0`): a list is a `TypeError` -/
+def asFloatT : ObjVal → Except Err Num
+  | .single x => .ok x
+  | .multi _ => .error .typeError
 end Py
